@@ -25,7 +25,7 @@ mod mirdump;
 
 use json::Js;
 use rustc_hir::def_id::{DefId, LOCAL_CRATE};
-use rustc_middle::ty::print::{with_no_trimmed_paths, with_no_visible_paths};
+use rustc_middle::ty::print::{with_no_trimmed_paths, with_no_visible_paths, with_resolve_crate_name};
 use rustc_middle::ty::{Ty, TyCtxt};
 use rustc_span::Span;
 
@@ -37,15 +37,12 @@ pub struct Cx<'tcx> {
 impl<'tcx> Cx<'tcx> {
     /// Canonical definition path, crate-qualified, independent of `use`s.
     pub fn path(&self, did: DefId) -> String {
-        let s = with_no_visible_paths!(with_no_trimmed_paths!(self.tcx.def_path_str(did)));
-        if did.is_local() {
-            format!("{}::{}", self.krate, s)
-        } else {
-            s
-        }
+        with_resolve_crate_name!(with_no_visible_paths!(with_no_trimmed_paths!(
+            self.tcx.def_path_str(did)
+        )))
     }
     pub fn ty(&self, ty: Ty<'tcx>) -> String {
-        with_no_visible_paths!(with_no_trimmed_paths!(ty.to_string()))
+        with_resolve_crate_name!(with_no_visible_paths!(with_no_trimmed_paths!(ty.to_string())))
     }
     /// [lo, hi, line, col] — lo/hi are raw byte positions (join key between HIR
     /// and MIR), line/col locate the outermost call site in user code.
